@@ -291,6 +291,11 @@ for n in list(range(9, 14)) + list(range(16, 25)):
 for n in (7, 8, 14, 15, 16, 21, 22):
     log_obl(n, n // 7 + 1, "thorough", 7200)
 
+# promote: a complete new-file record (tag 7) needs >= 14 bytes; keep one such size in the quick tier
+for _o in OBLIGATIONS:
+    if _o.name in ("c.edit-1rec-N16",):
+        _o.tier = "quick"
+
 META = {
     "level": "model_checking",
     "level_text": "Bounded model checking (CBMC 6.11) of lcdb's own decoder code (util/coding.h, util/slice.c, util/buffer.c, "
